@@ -40,6 +40,11 @@ type c17Case struct {
 	Trigger   string `json:"trigger"`   // direct = executed as cron executes it; cron = real "@every 1s" schedule
 	Transform bool   `json:"transform"` // JS identity transform in the pipeline
 	Sampled   bool   `json:"sampled,omitempty"`
+	// Refire: the trigger fires again on the SAME job object (what a cron tick / on-change event /
+	// reRun timer does) while the run waits for the sink's answer to its r-th request, for every r
+	// listed (1-based, per run); -r means "at every request from the r-th on". The extra execution
+	// gets no ticket and must be skipped without any effect on the run in progress.
+	Refire []int `json:"refire,omitempty"`
 }
 
 func c17Subset(mask, k int) []int {
@@ -93,6 +98,25 @@ func c17EnumList(tier string, transform bool) []c17Case {
 				for _, t := range []int{1, 2} {
 					for _, m := range []int{0, 1} {
 						add(c17Case{K: k, B: k, Fail: f, Budget: t, MaxItems: m})
+					}
+				}
+			}
+		}
+	}
+	// the trigger fires again while a run that has already rejected entities is in progress
+	if !transform {
+		for k := 2; k <= kmax; k++ {
+			for mask := 1; mask < 1<<k; mask++ {
+				f := c17Subset(mask, k)
+				for _, b := range []int{1, 2, k} {
+					if b > k || (b == 2 && k == 2) {
+						continue
+					}
+					for _, m := range []int{0, 2} {
+						for _, rf := range [][]int{{2}, {3}, {-2}} {
+							c := c17Case{K: k, B: b, Fail: f, MaxItems: m, Refire: rf, Kind: "incremental", Trigger: "direct"}
+							out = append(out, c)
+						}
 					}
 				}
 			}
@@ -191,10 +215,25 @@ type c17Script struct {
 	Fail     map[int]int // idx -> remaining poisoned requests (<0 = forever)
 	FailRuns int         // reject every request while the run number is <= FailRuns
 	run      int
-	block    bool // block the first request until released
+	block    bool // block one request until released …
+	blockAt  int  // … the blockAt-th request of the current run (0/1 = the first)
 	reached  chan struct{}
 	release  chan struct{}
+	reqNo    int // requests seen in the current run
+	refire   []int
+	onRefire func() // called (synchronously, while the request is pending) at the refire points
+	inRefire bool
+	refired  int
 	events   []c17Ev
+}
+
+func (sc *c17Script) refireNow() bool {
+	for _, r := range sc.refire {
+		if r == sc.reqNo || (r < 0 && sc.reqNo >= -r) {
+			return true
+		}
+	}
+	return false
 }
 
 type c17Sink struct {
@@ -237,7 +276,17 @@ func (s *c17Sink) handle(w http.ResponseWriter, r *http.Request) {
 		w.WriteHeader(404)
 		return
 	}
-	if sc.block {
+	sc.reqNo++
+	if sc.onRefire != nil && !sc.inRefire && sc.refireNow() {
+		sc.inRefire = true
+		f := sc.onRefire
+		s.mu.Unlock()
+		f()
+		s.mu.Lock()
+		sc.inRefire = false
+		sc.refired++
+	}
+	if sc.block && sc.reqNo >= sc.blockAt {
 		sc.block = false
 		reached, release := sc.reached, sc.release
 		s.mu.Unlock()
@@ -289,6 +338,7 @@ func (s *c17Sink) noteStart(job string) {
 	s.mu.Lock()
 	if sc := s.scripts[job]; sc != nil {
 		sc.run++
+		sc.reqNo = 0
 	}
 	s.mu.Unlock()
 }
@@ -572,6 +622,9 @@ func c17Enum(ctx *Ctx) error {
 		if c.B < c.K {
 			tags = append(tags, "multi-batch")
 		}
+		if len(c.Refire) > 0 {
+			tags = append(tags, "trigger-refired-while-running")
+		}
 		if c.Sampled {
 			tags = append(tags, "sampled")
 		} else {
@@ -589,8 +642,14 @@ func c17Enum(ctx *Ctx) error {
 func (st *c17State) runEnum(caseID string, pos int, c c17Case) {
 	out := st.ctx.Out
 	viol := func(class, msg string, exp, got any, evs []c17Ev) {
+		rf := ""
+		if len(c.Refire) > 0 {
+			// input class: the same job object was triggered again while this run was in progress
+			class += "/trigger-refired-while-running"
+			rf = fmt.Sprintf(" refire@%v", c.Refire)
+		}
 		out.Stat("viol:"+class, 1)
-		out.Viol(caseID, "C17", class, fmt.Sprintf("k=%d b=%d fail=%v budget=%d maxItems=%d %s/%s transform=%v: %s", c.K, c.B, c.Fail, c.Budget, c.MaxItems, c.Kind, c.Trigger, c.Transform, msg),
+		out.Viol(caseID, "C17", class, fmt.Sprintf("k=%d b=%d fail=%v budget=%d maxItems=%d %s/%s transform=%v%s: %s", c.K, c.B, c.Fail, c.Budget, c.MaxItems, c.Kind, c.Trigger, c.Transform, rf, msg),
 			exp, got, map[string]any{"events": c17HeadEv(evs, 120)})
 	}
 	src, err := st.ensureSource(c.K)
@@ -650,12 +709,36 @@ func (st *c17State) runEnum(caseID string, pos int, c c17Case) {
 			st.sink.remove(jobID)
 			return
 		}
+		var rfPanic string
+		if len(c.Refire) > 0 {
+			sc.refire = c.Refire
+			sc.onRefire = func() {
+				// what a second cron tick does while the first run is busy: the same wrapped job object is run again
+				if p, m, _ := c10RunGuarded(js[0].RunAsCron); p {
+					rfPanic = m
+				}
+			}
+		}
 		panicked, pmsg, _ = c10RunGuarded(js[0].RunAsCron)
 		_ = st.h.Sched.DeleteJob(jobID)
 		out.Stat("runs_as_cron_direct", 1)
+		if len(c.Refire) > 0 {
+			out.Stat("refire_cases", 1)
+			out.Stat("refires_issued", int64(sc.refired))
+			if rfPanic != "" && !panicked {
+				panicked, pmsg = true, "re-fired execution: "+rfPanic
+			}
+		}
 	}
 	logs := st.h.Log.Take()
 	evs := c17Merge(jobID, st.sink.remove(jobID), logs)
+	if len(c.Refire) > 0 {
+		for _, l := range logs {
+			if jid, _ := l.Fields["job.jobId"].(string); jid == jobID && strings.Contains(l.Msg, "did not get a ticket") {
+				out.Stat("refires_skipped_by_hub", 1)
+			}
+		}
+	}
 	out.Stat("cases_run", 1)
 	out.Stat("cases:"+c.Kind, 1)
 	if c.Transform {
